@@ -3,7 +3,9 @@ package vsim
 import (
 	"errors"
 	"fmt"
+	"github.com/panjf2000/gnet/v2/pkg/pool/byteslice"
 	"io"
+	"strings"
 	"time"
 	"verif/sim/vsys"
 
@@ -251,7 +253,7 @@ func (h *handler) OnClose(c gnet.Conn, err error) (action gnet.Action) {
 		cs.peerCause = true
 	}
 	cs.closed, cs.closeErr = true, err
-	cs.held = nil // nothing obtained from a connection outlives it
+	cs.held, cs.peeks = nil, nil // nothing obtained from a connection outlives it
 	w.closedN++
 	w.countChanged()
 	w.logf("conn %d OnClose err=%v local=%v peer=%v", cs.idx, err != nil, cs.localReq, cs.peerCause)
@@ -329,8 +331,8 @@ func (h *handler) OnTraffic(c gnet.Conn) (action gnet.Action) {
 	}
 	task := w.enterCB("OnTraffic", cs)
 	defer w.exitCB(task, cs)
-	cs.held = nil // what a read call returned is only good inside the callback that made it
-	defer func() { cs.held = nil }()
+	cs.held, cs.peeks = nil, nil // what a read call returned is only good inside the callback that made it
+	defer func() { cs.held, cs.peeks = nil, nil }()
 	if cs.udp {
 		if cs.closed {
 			w.violate("C04", "traffic-after-close", "conn %d (udp client): OnTraffic after OnClose", cs.idx)
@@ -455,7 +457,15 @@ func (s *scriptWriter) Write(p []byte) (int, error) {
 // doRead performs one read-method call and checks it. Returns false after a violation.
 func (w *World) doRead(cs *connState, op *ROp) bool {
 	c := cs.c
-	cs.held = nil // any read-type call may invalidate what the previous one returned
+	if op.M == "peek" {
+		// the previous result, if it came from a Peek, stays valid next to the new one
+		if cs.held != nil && strings.HasPrefix(cs.heldWhat, "Peek") {
+			cs.peeks = append(cs.peeks, heldSlice{cs.held, cs.heldOff, cs.heldWhat})
+		}
+	} else {
+		cs.peeks = nil // a consuming call: earlier Peek results are void
+	}
+	cs.held = nil // any read-type call may invalidate what a Next returned
 	buffered := c.InboundBuffered()
 	// probes: did this call have to stitch leftover bytes (ring) with fresh ones?
 	if h := vsched.Hook("inbound-split"); h != nil {
@@ -538,6 +548,7 @@ func (w *World) doRead(cs *connState, op *ROp) bool {
 		}
 		if op.M == "peek" {
 			cs.held, cs.heldOff, cs.heldWhat = buf, cs.consumed, fmt.Sprintf("Peek(%d)", op.N)
+			w.checkHeld(cs, "a further Peek")
 		}
 		if op.M == "peekdiscard" {
 			d, derr := c.Discard(len(buf))
@@ -743,15 +754,58 @@ func scribble(b []byte) {
 // read-type call on the connection; writes made meanwhile (which draw buffers
 // from the same pools) must not change it.
 func (w *World) checkHeld(cs *connState, after string) {
-	if cs.held == nil {
+	if cs.held == nil && len(cs.peeks) == 0 {
 		return
 	}
+	// the application may use the byte-slice pool itself: whatever it gets there
+	// must not be memory a still valid Next/Peek result lives in
+	var mine [][]byte
+	grab := func(n int) {
+		if n > 0 && n <= 1<<20 {
+			b := byteslice.Get(n)
+			for i := range b {
+				b[i] = 0xa5
+			}
+			mine = append(mine, b)
+		}
+	}
+	if cs.held != nil {
+		grab(len(cs.held))
+	}
+	for _, h := range cs.peeks {
+		grab(len(h.b))
+	}
+	defer func() {
+		for _, b := range mine {
+			byteslice.Put(b)
+		}
+	}()
+	if cs.held != nil {
+		w.checkHeldOne(cs, cs.held, cs.heldOff, cs.heldWhat, after)
+	}
+	// earlier Peek results: a Peek does not consume, so what it returned stays
+	// valid across further Peeks, until a consuming call
+	for _, h := range cs.peeks {
+		if w.viol["C12"] != nil {
+			break
+		}
+		w.checkHeldOne(cs, h.b, h.off, h.what, after)
+	}
+}
+
+type heldSlice struct {
+	b    []byte
+	off  int
+	what string
+}
+
+func (w *World) checkHeldOne(cs *connState, held []byte, off int, what, after string) {
 	w.probes["held-slice-rechecks"]++
-	for i, b := range cs.held {
-		if b != payloadIn(cs.idx, cs.heldOff+i) {
-			w.violate("C01", "held-slice-overwritten", "conn %d: byte %d of the %d-byte slice returned by %s (stream offset %d) changed to 0x%02x after %s, before any further read call", cs.idx, i, len(cs.held), cs.heldWhat, cs.heldOff, b, after)
-			w.violate("C12", "inbound-slice-overwritten", "conn %d: byte %d of the %d-byte slice returned by %s (stream offset %d) changed to 0x%02x after %s, before any further read call: its memory was handed to someone else", cs.idx, i, len(cs.held), cs.heldWhat, cs.heldOff, b, after)
-			cs.held = nil
+	for i, b := range held {
+		if b != payloadIn(cs.idx, off+i) {
+			w.violate("C01", "held-slice-overwritten", "conn %d: byte %d of the %d-byte slice returned by %s (stream offset %d) changed to 0x%02x after %s, before any consuming read call", cs.idx, i, len(held), what, off, b, after)
+			w.violate("C12", "inbound-slice-overwritten", "conn %d: byte %d of the %d-byte slice returned by %s (stream offset %d) changed to 0x%02x after %s, before any consuming read call: its memory was handed to someone else", cs.idx, i, len(held), what, off, b, after)
+			cs.held, cs.peeks = nil, nil
 			return
 		}
 	}
